@@ -1,2 +1,145 @@
-//! Crypto fixtures and scratch directories (filled in by later commits).
+//! Crypto fixtures (committed under /verif/fixtures, generated once by `opcua-verif --make-fixtures`),
+//! scratch directories and channel construction helpers.
 #![allow(dead_code)]
+use opcua::core::comms::secure_channel::{Role, SecureChannel};
+use opcua::crypto::{CertificateStore, PrivateKey, SecurityPolicy, X509Data, X509};
+use opcua::sync::RwLock;
+use opcua::types::{DecodingOptions, MessageSecurityMode};
+use std::path::PathBuf;
+use std::sync::Arc;
+
+pub const FIXTURE_DIR: &str = "/verif/fixtures";
+pub const APP_URI: &str = "urn:verif:app";
+pub const HOSTNAME: &str = "verifhost";
+
+/// names: rsa1024a, rsa1024b, rsa2048a, rsa2048b, rsa4096a, rsa4096b (+ time-invalid certs for C18)
+pub const KEY_NAMES: &[&str] = &["rsa1024a", "rsa1024b", "rsa2048a", "rsa2048b", "rsa4096a", "rsa4096b"];
+
+pub fn key_bits(name: &str) -> u32 {
+    name[3..7].parse().unwrap()
+}
+
+pub fn scratch_dir(name: &str) -> PathBuf {
+    let p = PathBuf::from(format!("{}/{}-{}", crate::engine::SCRATCH_DIR, name, std::process::id()));
+    let _ = std::fs::create_dir_all(&p);
+    p
+}
+
+pub fn make_fixtures() {
+    std::fs::create_dir_all(FIXTURE_DIR).unwrap();
+    for name in KEY_NAMES {
+        let pem = format!("{}/{}.pem", FIXTURE_DIR, name);
+        if std::path::Path::new(&pem).exists() {
+            continue;
+        }
+        let data = X509Data {
+            key_size: key_bits(name),
+            common_name: format!("verif {}", name),
+            organization: "verif".into(),
+            organizational_unit: "verif".into(),
+            country: "IE".into(),
+            state: "Dublin".into(),
+            alt_host_names: vec![APP_URI.to_string(), HOSTNAME.to_string(), "127.0.0.1".to_string()],
+            certificate_duration_days: 365 * 40,
+        };
+        let (cert, key) = X509::cert_and_pkey(&data).expect("cert_and_pkey");
+        std::fs::write(&pem, key.private_key_to_pem().unwrap()).unwrap();
+        std::fs::write(format!("{}/{}.der", FIXTURE_DIR, name), cert.to_der().unwrap()).unwrap();
+        println!("made {}", name);
+    }
+    // time-invalid certificates over the rsa2048a key, built with the openssl crate directly
+    let key = load_key("rsa2048a");
+    for (name, from, to) in [("expired2048", -800i64, -400i64), ("notyet2048", 365 * 30, 365 * 40)] {
+        let path = format!("{}/{}.der", FIXTURE_DIR, name);
+        if std::path::Path::new(&path).exists() {
+            continue;
+        }
+        use openssl::asn1::Asn1Time;
+        use openssl::x509::extension::SubjectAlternativeName;
+        use openssl::x509::{X509Builder, X509NameBuilder};
+        let pk = openssl::pkey::PKey::private_key_from_pem(&key.private_key_to_pem().unwrap()).unwrap();
+        let mut b = X509Builder::new().unwrap();
+        b.set_version(2).unwrap();
+        let mut n = X509NameBuilder::new().unwrap();
+        n.append_entry_by_text("CN", &format!("verif {}", name)).unwrap();
+        let n = n.build();
+        b.set_subject_name(&n).unwrap();
+        b.set_issuer_name(&n).unwrap();
+        let now = chrono::Utc::now().timestamp();
+        b.set_not_before(&Asn1Time::from_unix(now + from * 86400).unwrap()).unwrap();
+        b.set_not_after(&Asn1Time::from_unix(now + to * 86400).unwrap()).unwrap();
+        b.set_pubkey(&pk).unwrap();
+        let san = SubjectAlternativeName::new().uri(APP_URI).dns(HOSTNAME).build(&b.x509v3_context(None, None)).unwrap();
+        b.append_extension(san).unwrap();
+        b.sign(&pk, openssl::hash::MessageDigest::sha256()).unwrap();
+        std::fs::write(&path, b.build().to_der().unwrap()).unwrap();
+        println!("made {}", name);
+    }
+}
+
+pub fn load_key(name: &str) -> PrivateKey {
+    let pem = std::fs::read(format!("{}/{}.pem", FIXTURE_DIR, name)).unwrap_or_else(|e| crate::engine::harness_error(&format!("fixture {}: {}", name, e)));
+    PrivateKey::from_pem(&pem).unwrap_or_else(|_| crate::engine::harness_error("fixture key does not parse"))
+}
+
+pub fn load_cert(name: &str) -> X509 {
+    let der = std::fs::read(format!("{}/{}.der", FIXTURE_DIR, name)).unwrap_or_else(|e| crate::engine::harness_error(&format!("fixture {}: {}", name, e)));
+    X509::from_der(&der).unwrap_or_else(|_| crate::engine::harness_error("fixture cert does not parse"))
+}
+
+pub fn cert_store() -> Arc<RwLock<CertificateStore>> {
+    Arc::new(RwLock::new(CertificateStore::new(&scratch_dir("pki-empty"))))
+}
+
+pub fn plain_channel(role: Role) -> SecureChannel {
+    SecureChannel::new(cert_store(), role, DecodingOptions::default())
+}
+
+pub const POLICIES: &[SecurityPolicy] = &[
+    SecurityPolicy::Basic128Rsa15,
+    SecurityPolicy::Basic256,
+    SecurityPolicy::Basic256Sha256,
+    SecurityPolicy::Aes128Sha256RsaOaep,
+    SecurityPolicy::Aes256Sha256RsaPss,
+];
+
+/// the 11 valid (policy, mode) pairs, index 0 = None/None
+pub fn policy_mode(i: usize) -> (SecurityPolicy, MessageSecurityMode) {
+    if i % 11 == 0 {
+        (SecurityPolicy::None, MessageSecurityMode::None)
+    } else {
+        let j = (i % 11) - 1;
+        (POLICIES[j / 2], if j % 2 == 0 { MessageSecurityMode::Sign } else { MessageSecurityMode::SignAndEncrypt })
+    }
+}
+
+/// A connected pair of channels (client, server) with certificates, nonces and derived keys.
+pub fn channel_pair(policy: SecurityPolicy, mode: MessageSecurityMode, client_key: &str, server_key: &str, client_nonce: &[u8], server_nonce: &[u8]) -> (SecureChannel, SecureChannel) {
+    let mut c = plain_channel(Role::Client);
+    let mut s = plain_channel(Role::Server);
+    for ch in [&mut c, &mut s] {
+        ch.set_security_policy(policy);
+        ch.set_security_mode(mode);
+        ch.set_secure_channel_id(7);
+    }
+    if policy != SecurityPolicy::None {
+        c.set_cert(Some(load_cert(client_key)));
+        c.set_private_key(Some(load_key(client_key)));
+        c.set_remote_cert(Some(load_cert(server_key)));
+        s.set_cert(Some(load_cert(server_key)));
+        s.set_private_key(Some(load_key(server_key)));
+        s.set_remote_cert(Some(load_cert(client_key)));
+        c.set_local_nonce(client_nonce);
+        c.set_remote_nonce(server_nonce);
+        s.set_local_nonce(server_nonce);
+        s.set_remote_nonce(client_nonce);
+        c.derive_keys();
+        s.derive_keys();
+    }
+    (c, s)
+}
+
+pub fn nonce_for(policy: SecurityPolicy, seed: u8) -> Vec<u8> {
+    let n = policy.secure_channel_nonce_length();
+    (0..n).map(|i| (i as u8).wrapping_mul(31).wrapping_add(seed)).collect()
+}
